@@ -24,55 +24,82 @@ EXPLANATION = ('PROVED: _transform_do is SE(3) composition (real numpy function 
                'shape (jointless bodies under the world / under jointed bodies / nested, each with pos only, quat only, both or neither; children: geom by pos/quat, geom by fromto, '
                'site, jointed body) and ALL pose values, every surviving element has the same world pose (fromto: the same end points) in the fused tree as in the original -- all '
                'paths of the real code explored, z3 on each.  BOUNDED (not proof): MuJoCo kinematics and inertia matrix of original vs mjcf.fuse_bodies(xml) on generated documents.')
-TRUSTED = ['xml.etree.ElementTree', 'the three AST rewrites (pattern counts asserted on every run)', 'world pose = composition of ancestor poses (MJCF semantics)']
+TRUSTED = ['xml.etree.ElementTree', 'the four local AST rules that let attribute values be symbolic (np.fromstring, str.join, one-spec % formatting, float(); applied to the whole module, nothing asserted about the code shape)', 'world pose = composition of ancestor poses (MJCF semantics)']
 ASSUMPTIONS = ['6-decimal text rounding and string parsing are dropped by the rewrite (bounded check runs the unmodified function)',
                'mass / inertia preservation is decided only by the bounded stand-in (computed by the MuJoCo compiler)', 'tree shapes: <= 3 levels of jointless bodies, <= 5 elements']
 BOUNDED_RULE = 'generator documents with 1-3 jointless bodies inserted at random places; non-trivial = distinct documents'
 
 
 class TArr(np.ndarray):
-  """a symbolic attribute value: truthy like the non-empty string it stands for"""
+  """a symbolic attribute value: truthy like the non-empty string it stands for; `split` gives its components like the string's"""
   def __bool__(self):
     return True
 
+  def split(self, sep=None, maxsplit=-1):
+    return list(np.asarray(self, dtype=object).reshape(-1))
 
 
 # ---- mechanical extraction ----------------------------------------------------------------------------------------------------------
-def _FS(x):
+# Attribute values are symbolic, so the text <-> number conversions of the module cannot run as they are.  The WHOLE module source (every function, also helpers a
+# refactoring may add) is transformed by four local, pattern-free rules and executed in a namespace of its own:
+#     np.fromstring(X, ...)      ->  _FS(X)        numbers of a string, or the components of a symbolic attribute
+#     '<sep>'.join(X)            ->  _JN(sep, X)   a string if every item is one, else a symbolic attribute
+#     '%f' % E  (one float spec) ->  _FMT(E)       the value itself (dropped: rounding to 6 decimals)
+#     float(X)                   ->  _FLOAT(X)
+# Nothing is counted or asserted about the shape of the code; a conversion that reaches a proxy some other way raises ProxyLimit (undecided).
+def _FS(x, *a, **k):
   if isinstance(x, str):
     return np.array([float(t) for t in x.split()], dtype=object)
-  return np.asarray(x, dtype=object)
+  return np.asarray(x, dtype=object).reshape(-1)
 
 
-def _JN(x):
-  return np.asarray(list(x), dtype=object).view(TArr)
+def _JN(sep, x):
+  items = list(x)
+  if all(isinstance(i, str) for i in items):
+    return sep.join(items)
+  out = []
+  for i in items:
+    if isinstance(i, str):
+      out += [float(t) for t in i.split()]
+    elif isinstance(i, np.ndarray):
+      out += list(np.asarray(i, dtype=object).reshape(-1))
+    else:
+      out.append(i)
+  return np.asarray(out, dtype=object).view(TArr)
 
 
-def _SL(x, a, b):
-  return np.asarray(x, dtype=object)[a:b]
+def _FMT(x):
+  return x
+
+
+def _FLOAT(x):
+  return float(x) if isinstance(x, (str, int, float, np.floating, np.integer)) else x
 
 
 class _Rewrite(ast.NodeTransformer):
   def __init__(self):
-    self.n = {'fromstring': 0, 'join_fmt': 0, 'split': 0}
+    self.n = {'fromstring': 0, 'join': 0, 'fmt': 0, 'float': 0}
 
   def visit_Call(self, node):
     self.generic_visit(node)
-    src = ast.unparse(node)
-    # np.fromstring(X, sep=' ')
-    if isinstance(node.func, ast.Attribute) and node.func.attr == 'fromstring' and ast.unparse(node.func.value) == 'np':
-      if len(node.args) == 1 and [k.arg for k in node.keywords] == ['sep']:
-        self.n['fromstring'] += 1
-        return ast.Call(func=ast.Name('_FS', ast.Load()), args=[node.args[0]], keywords=[])
-    # ' '.join(...)
-    if isinstance(node.func, ast.Attribute) and node.func.attr == 'join' and isinstance(node.func.value, ast.Constant) and node.func.value.value == ' ':
-      a = node.args[0]
-      if isinstance(a, ast.GeneratorExp) and ast.unparse(a.elt) == "'%f' % i":
-        self.n['join_fmt'] += 1
-        return ast.Call(func=ast.Name('_JN', ast.Load()), args=[a.generators[0].iter], keywords=[])
-      if isinstance(a, ast.Subscript) and isinstance(a.value, ast.Call) and ast.unparse(a.value.func).endswith('.split') and isinstance(a.slice, ast.Slice):
-        self.n['split'] += 1
-        return ast.Call(func=ast.Name('_SL', ast.Load()), args=[a.value.func.value, a.slice.lower, a.slice.upper], keywords=[])
+    f = node.func
+    if isinstance(f, ast.Attribute) and f.attr == 'fromstring' and ast.unparse(f.value) in ('np', 'numpy', 'onp'):
+      self.n['fromstring'] += 1
+      return ast.Call(func=ast.Name('_FS', ast.Load()), args=node.args, keywords=node.keywords)
+    if isinstance(f, ast.Attribute) and f.attr == 'join' and isinstance(f.value, ast.Constant) and isinstance(f.value.value, str) and len(node.args) == 1:
+      self.n['join'] += 1
+      return ast.Call(func=ast.Name('_JN', ast.Load()), args=[f.value, node.args[0]], keywords=[])
+    if isinstance(f, ast.Name) and f.id == 'float' and len(node.args) == 1:
+      self.n['float'] += 1
+      return ast.Call(func=ast.Name('_FLOAT', ast.Load()), args=node.args, keywords=[])
+    return node
+
+  def visit_BinOp(self, node):
+    self.generic_visit(node)
+    import re
+    if isinstance(node.op, ast.Mod) and isinstance(node.left, ast.Constant) and isinstance(node.left.value, str) and re.fullmatch(r'%(\.\d+)?[fge]', node.left.value):
+      self.n['fmt'] += 1
+      return ast.Call(func=ast.Name('_FMT', ast.Load()), args=[node.right], keywords=[])
     return node
 
 
@@ -80,31 +107,26 @@ def tarr(a):
   return np.asarray(a, dtype=object).view(TArr)
 
 
+_EXTRACTED = {}
+
+
 def extracted():
-  """(_transform_do, _offset, _fuse_bodies) compiled from the real source with the three rewrites; fails closed on any other shape"""
+  """the real brax/io/mjcf.py, transformed by the four rules above and executed as a module of its own; returns its namespace"""
   import brax
-  from brax import math
   path = os.path.join(os.path.dirname(brax.__file__), 'io', 'mjcf.py')
-  tree = ast.parse(open(path).read())
-  keep = [n for n in tree.body if isinstance(n, ast.FunctionDef) and n.name in ('_transform_do', '_offset', '_fuse_bodies')]
-  if [n.name for n in keep] != ['_transform_do', '_offset', '_fuse_bodies']:
-    raise AssertionError('mjcf.py: expected _transform_do, _offset, _fuse_bodies; found %s' % [n.name for n in keep])
+  src = open(path).read()
+  if _EXTRACTED.get('src') == src:
+    return _EXTRACTED['ns']
+  tree = ast.parse(src)
   rw = _Rewrite()
-  mod = ast.fix_missing_locations(ast.Module(body=[rw.visit(n) for n in keep], type_ignores=[]))
-  # fail closed: every text<->number conversion in the three functions must have been recognised by one of the three rewrites
-  left = ast.unparse(mod)
-  for frag in ('fromstring', "'%f'", '.split(', 'float(', 'format('):
-    if frag in left:
-      raise AssertionError('mjcf.py: an unrecognised text<->number conversion (%s) remains after the mechanical rewrite: %s' % (frag, rw.n))
-  if rw.n['fromstring'] < 3 or rw.n['join_fmt'] < 2:
-    raise AssertionError('mjcf.py: too few text<->number conversions recognised: %s' % rw.n)
-  from typing import Tuple
-  # the rewritten functions run in a copy of the real module's namespace (module-level helpers and constants they may refer to resolve as in production);
-  # only the three functions themselves and the three conversion shims are replaced
-  from brax.io import mjcf as _real
-  ns = dict(_real.__dict__)
-  ns.update({'np': np, 'math': math, 'ElementTree': ElementTree, 'Tuple': Tuple, '_FS': _FS, '_JN': _JN, '_SL': _SL})
+  mod = ast.fix_missing_locations(rw.visit(tree))
+  ns = {'__name__': 'brax.io.mjcf', '__file__': path, '_FS': _FS, '_JN': _JN, '_FMT': _FMT, '_FLOAT': _FLOAT}
   exec(compile(mod, path + ' [rewritten]', 'exec'), ns)
+  for need in ('_fuse_bodies',):
+    if need not in ns:
+      raise AssertionError('mjcf.py: %s not found' % need)
+  ns['_rewrite_counts'] = dict(rw.n)
+  _EXTRACTED.update(src=src, ns=ns)
   return ns
 
 
